@@ -173,12 +173,12 @@ def run(ctx):
     ctx.sample({"input": fmt_case_rust(cases[n_exh]), "impl": str(impl[n_exh])})
     model = None
     if ok:
-        nshard = 16
+        nshard = max(16, (len(cases) + 1499) // 1500)       # at most ~1500 cases per coqc run
         shards = [cases[i::nshard] for i in range(nshard)]
         bodies = [["map run_topo %s" % coq_list(sh, fmt_case_coq)] for sh in shards]
         try:
             res = ctx.coq_eval("Topo", "c18", bodies, "Require Import List NArith. Import ListNotations.\n"
-                               "Require Import Topo.Model Topo.Run.\nOpen Scope N_scope.")
+                               "Require Import Topo.Model Topo.Run.\nOpen Scope N_scope.", timeout=3600)
             model = [None] * len(cases)
             for s, r in enumerate(res):
                 for j, v in enumerate(r[0]):
